@@ -224,14 +224,15 @@ Lemma sim_step_len : forall v s t, length (stk (sim_step v s t)) <= S (length (s
 Proof.
   intros v [st m pe] [o a].
   pose proof (pop_to_mark_len st) as Hp. pose proof (dict_pop_len st) as Hd.
-  destruct o; unfold sim_step; cbn [fst snd stk memo with_stk with_memo push];
-    try (simpl; lia);
-    try (destruct st as [|k0 [|k1 [|k2 st']]]; simpl; try lia;
-         repeat match goal with |- context [if ?b then _ else _] => destruct b end; simpl; lia).
-  - (* OBJ *) destruct st as [|k0 st']; [simpl; lia|]. destruct k0; simpl in *; lia.
-  - (* GET *) destruct (memo_get _ m); simpl; lia.
-  - destruct (memo_get _ m); simpl; lia.
-  - destruct (memo_get _ m); simpl; lia.
+  destruct o; unfold sim_step; cbn [fst snd stk memo with_stk with_memo push proto_emitted];
+    try (cbn [length]; lia);
+    try (destruct st as [|k0 [|k1 [|k2 st']]]; cbn [length stk with_stk with_memo push tl]; try lia;
+         repeat match goal with |- context [if ?b then _ else _] => destruct b end;
+         cbn [length stk with_stk with_memo push]; lia).
+  all: try (destruct (memo_get _ m); cbn [length stk push with_stk]; lia).
+  (* OBJ *)
+  destruct st as [|k0 st']; [cbn [length stk]; lia|].
+  destruct k0; cbn [length stk with_stk] in *; lia.
 Qed.
 
 Lemma run_steps_len : forall v ts s, length (stk (run_steps v s ts)) <= length ts + length (stk s).
@@ -250,11 +251,13 @@ Proof.
   unfold run_tokens. cbv zeta.
   change {| stk := []; memo := []; proto_emitted := negb (v_lt2 (c_version c)) |} with (s_start c).
   set (s1 := run_steps (c_version c) (s_start c) (map rs_tok steps)).
-  eexists (length (header c framed _)), (length (fst (cleanup_for_stop (c_version c) s1))).
-  split; [rewrite !app_length, !map_length; simpl; lia|].
-  split; [unfold header; destruct (v_lt2 (c_version c)); destruct framed; simpl; lia|].
+  set (tail := fst (cleanup_for_stop (c_version c) s1)).
+  match goal with |- context [header c framed ?n] => set (hd := header c framed n) end.
+  exists (length hd), (length tail).
+  split; [rewrite !app_length, !map_length; cbn [length]; lia|].
+  split; [unfold hd, header; destruct (v_lt2 (c_version c)); destruct framed; cbn [length app]; lia|].
   split; [|exact HT].
-  destruct (cleanup_facts (c_version c) s1) as [Hlen _].
+  destruct (cleanup_facts (c_version c) s1) as [Hlen _]. fold tail in Hlen.
   pose proof (run_steps_len (c_version c) (map rs_tok steps) (s_start c)) as Hl.
-  rewrite map_length in Hl. simpl in Hl. fold s1 in Hl. lia.
+  rewrite map_length in Hl. cbn [s_start stk length] in Hl. fold s1 in Hl. lia.
 Qed.
